@@ -87,6 +87,7 @@ type Invoice struct {
 	Owner      *Backend // nil: external payee
 	Settled    bool
 	SettledBy  string // "external" or the paying backend's name
+	Forged     bool   // re-uses the payment hash of another invoice; nobody but that invoice's payee knows the preimage
 	subs       []*sub
 }
 
@@ -153,6 +154,36 @@ func (n *Network) ExternalInvoice(amountMsat uint64) *Invoice {
 	if err != nil {
 		panic(err)
 	}
+	return i
+}
+
+// ForgedInvoice creates an invoice of an external payee that re-uses the payment hash of an existing invoice (payment
+// hashes are public: anybody can issue an invoice for any hash, for any amount). It is known by its request string
+// only; the hash keeps pointing at the original invoice.
+func (n *Network) ForgedInvoice(hash string, amountMsat uint64) *Invoice {
+	n.mu.Lock()
+	defer n.mu.Unlock()
+	hb, err := hex.DecodeString(hash)
+	if err != nil || len(hb) != 32 {
+		panic("lnmodel: bad hash")
+	}
+	var h [32]byte
+	copy(h[:], hb)
+	n.nonce++
+	created := time.Unix(1700000000+int64(n.nonce), 0)
+	inv, err := zpay32.NewInvoice(&chaincfg.SigNetParams, h, created,
+		zpay32.Amount(lnwire.MilliSatoshi(amountMsat)), zpay32.Description("verif (same hash, other payee)"))
+	if err != nil {
+		panic(err)
+	}
+	s, err := inv.Encode(zpay32.MessageSigner{SignCompact: func(msg []byte) ([]byte, error) {
+		return ecdsa.SignCompact(signKey, msg, true), nil
+	}})
+	if err != nil {
+		panic(err)
+	}
+	i := &Invoice{Request: s, Hash: hash, AmountMsat: amountMsat, Forged: true}
+	n.byReq[s] = i
 	return i
 }
 
@@ -228,8 +259,8 @@ func (n *Network) Subscribers(hash string) int {
 type FeeMode int
 
 const (
-	FeeZero FeeMode = iota
-	FeePercent      // ceil(1%) like the LND / CLN backends
+	FeeZero    FeeMode = iota
+	FeePercent         // ceil(1%) like the LND / CLN backends
 	FeeConst
 )
 
@@ -438,6 +469,10 @@ func (b *Backend) pay(c *Call, request string, amountMsat, maxFee uint64) (light
 	} else if len(b.PayScript) > 0 {
 		ans = b.PayScript[0]
 		b.PayScript = b.PayScript[1:]
+	}
+	if inv := b.Net.byReq[request]; inv != nil && inv.Forged {
+		// the payee of an invoice that borrowed somebody else's payment hash cannot settle the HTLC
+		ans = PayFailed
 	}
 	p := b.payments[c.Hash]
 	if p == nil {
